@@ -353,3 +353,20 @@ M('C17', 'c17-bold-marker-literal', [(CI, "        txt += color('1;37', self._na
 M('C17', 'c17-ljust-coloured', [(CTL, "            line += str(connection) + ': '\n            line = color(clr, line)", "            line += str(connection) + ': '\n            line = color(clr, line).ljust(40)")], 'C17.4')
 M('C17', 'c17-help-text-width-coloured', [(MAT, "        result += color(object_type_color, match[0])\n        result += ' ' * (32 - len(match[0]))", "        cell = color(object_type_color, match[0])\n        result += cell\n        result += ' ' * (32 - len(cell))")], 'C17.4')
 V('C17', 'c17v-code-const-alias', [(CTL, "help_command_color = alert_color", "help_command_color = '93'")])
+
+# ---- C19 -----------------------------------------------------------------------------------------
+AF = 'frontends/tui/arguments.py'
+GR = 'backends/gdb_plugin/runner.py'
+M('C19', 'c19-include-marker', [(AF, "                    return (args[:i], command_id, args[i+1:])", "                    return (args[:i], command_id, args[i:])")], 'C19.1')
+M('C19', 'c19-loops-swapped', [(AF, "    for i in range(len(args)):\n        for command in commands:\n            command_id = _strip_dashes(command[0])\n            for alias in command:\n                if args[i] == alias:", "    for command in commands:\n        command_id = _strip_dashes(command[0])\n        for i in range(len(args)):\n          if True:\n            for alias in command:\n                if args[i] == alias:")], 'C19.1')
+M('C19', 'c19-swallow-matcher-error', [(AF, "        except RuntimeError as e:\n            raise RuntimeError('invalid filter matcher: ' + str(e))", "        except RuntimeError as e:\n            logging.warning('invalid filter matcher: ' + str(e))")], 'C19.4')
+M('C19', 'c19-argparse-sees-all', [(AF, "args = parser.parse_args(args=wayland_debug_args[1:])", "args, _unknown = parser.parse_known_args(args=argv[1:])")], 'C19.2')
+M('C19', 'c19-forward-filtered', [(AF, "        wayland_debug_args,\n        command_args\n    )", "        wayland_debug_args,\n        [a for a in command_args if a != '--']\n    )")], 'C19.3')
+M('C19', 'c19-cluster-keeps-letter', [(AF, "                        return (args[:i] + [args[i][:-1]], command_id, args[i+1:])", "                        return (args[:i] + [args[i]], command_id, args[i+1:])")], 'C19.1')
+M('C19', 'c19-two-modes-first-wins', [(AF, "    elif len(modes) > 1:\n        logging.error(', '.join(modes[:-1]) + ' and ' + modes[-1] + ' modes conflict, please specify a single mode')\n        return None", "    elif len(modes) > 2:\n        logging.error(', '.join(modes[:-1]) + ' and ' + modes[-1] + ' modes conflict, please specify a single mode')\n        return None")], 'C19.5')
+M('C19', 'c19-no-mode-runs-anyway', [(AF, "    if mode is None:\n        parser.print_help()\n        exit(0)", "    if mode is None:\n        parser.print_help()\n        mode = Mode.PIPE")], 'C19.5')
+M('C19', 'c19-hand-quote-again', [(GR, "', '.join(repr(i) for i in args.wayland_debug_args)", "', '.join('\"' + i.replace('\"', '\\\\\"') + '\"' for i in args.wayland_debug_args)")], 'C19.6')
+M('C19', 'c19-gdb-args-sorted', [(GR, "    call_args = ['gdb', '-ex', call_str] + args.command_args", "    call_args = ['gdb', '-ex', call_str] + sorted(args.command_args)")], 'C19.3')
+M('C19', 'c19-main-exit-zero', [('main.py', "    except RuntimeError as e:\n        logging.error(e)\n        exit(1)", "    except RuntimeError as e:\n        logging.error(e)\n        exit(0)")], 'C19.4')
+M('C19', 'c19-marker-spelling-missing', [(AF, "        ['-r', '--run'],\n    ])", "        ['-r'],\n    ])")], 'C19.1')
+V('C19', 'c19v-json-dumps', [(GR, "', '.join(repr(i) for i in args.wayland_debug_args)", "', '.join(json.dumps(i) for i in args.wayland_debug_args)")])
